@@ -255,6 +255,22 @@ def centres(seed):
     return kind, pts
 
 
+def tess_premise(pts):
+    """logged data for the premise TLC evaluates (Trace_Edits TessPremiseFails): smallest |dx| of a finite Voronoi
+    ridge and smallest distance between two Voronoi vertices, after the parser's rounding to 3 decimals"""
+    import numpy as np
+    import scipy.spatial as sp
+    with np.errstate(all="ignore"):
+        vor = sp.Voronoi(np.array(pts))
+        vs = np.round(vor.vertices, 3)
+        dx = [abs(vs[a][0] - vs[b][0]) for a, b in vor.ridge_vertices if a >= 0 and b >= 0]
+        tree = sp.cKDTree(vor.vertices)
+        d, _ = tree.query(vor.vertices, k=2)
+        sep = float(d[:, 1].min()) if len(vor.vertices) > 1 else 1.0
+    cap = 1000.0
+    return {"min_dx": int(round(min([cap] + dx) * 1e6)), "min_sep": int(round(min(cap, sep) * 1e6))}
+
+
 def _tess_job(args):
     case, seed, lv = args
     import forsys as fs
@@ -262,7 +278,9 @@ def _tess_job(args):
 
     def parse():
         return fs.tessellation.create_lattice(*fs.tessellation.create_lattice_elements(pts))
-    return case, run_tree(case, parse, LEVELS[lv], f"tessellation:{kind}:seed{seed}:n{len(pts)}")
+    evs = run_tree(case, parse, LEVELS[lv], f"tessellation:{kind}:seed{seed}:n{len(pts)}")
+    evs[0].update(tess_premise(pts))
+    return case, evs
 
 
 def _sub_job(args):
